@@ -387,7 +387,7 @@ func (x *c04gen) mk(reg int, zero bool) {
 }
 
 func genC04(g *G) {
-	cases := g.Scale(1500, 6000)
+	cases := g.Scale(1500, 20000)
 	maxOps := g.Scale(90, 400)
 	for c := 0; c < cases; c++ {
 		x := &c04gen{g: g, keys: map[int][]int{}, zero: map[int]bool{}, ids: map[int]int{}, its: map[int]int{}, old: map[int]bool{}}
